@@ -185,7 +185,7 @@ class C14(Prop):
     theorems = ["labelToInt_intCast", "ixToRaw_rawToIx", "dsTake_perdim_commutes", "fullslice_both_modes", "DSV.setItem_shared", "DSV.takeAxisPosDs_spec", "DSV.takeAxisPosDs_ok", "DSV.sortAxisDs_spec", "DSV.reindexAxisDs_spec", "DSV.takeDs_spec", "DSV.takeDs_sameData", "DSV.firstDraft_counterexample",
                 "DSV.mapVarsDs_spec", "DSV.unaryOpDs_spec", "DSV.rbinaryOpDs_scalar_spec", "DSV.rbinaryOpDs_other", "DSV.rbinaryOpDs_not_binaryOpDs",
                 "DSV.stackDsA_noalign", "DSV.concatenateDsA_noalign", "DSV.stackDsA_spec",
-                "DSV.takeAxisIntsDs_spec", "DSV.takeAxisIntsDs_ok", "DSV.takePos_modes", "DSV.reindexAxisDsM_spec",
+                "DSV.takeDsMulti_attrs", "DSV.takeAxisIntsDs_spec", "DSV.takeAxisIntsDs_ok", "DSV.takePos_modes", "DSV.reindexAxisDsM_spec",
                 "DSV.reindexAxisDsM_default", "DSV.reindexAxisDsM_raise", "DSV.reindexAxisDsM_ok", "DSV.reduceAllDs_spec",
                 "DSV.concatenateDsA_spec", "DSV.rbinaryOpDs_ok", "DSV.rbinaryOpDs_ok_iff"]
     rule = ("Datasets of 1-4 variables whose dimension sets overlap partially (some variables lack the operated dimension, "
@@ -715,8 +715,8 @@ class C14(Prop):
         if op not in self.LEAN_OPS or self.unstable_sort(c):
             return True
         # (`DSV.reduceDs` mirrors the reduction along a named dimension, `DSV.reduceAllDs` the one with axis=None)
-        if op == "take" and (c["second"] or c["spelling"] in ("take_tuple", "take_tol", "nloc") or c.get("names") is not None):
-            return True
+        # (`Dataset.take` with a tuple over several dimensions / a second dimension in the dict / tol= / .nloc / names= is
+        # mirrored by `DSV.takeDsMulti`: driver extension ExtC14Ops4, see `take_multi_request`)
         # (take_axis with raw positions and mode= is mirrored by `DSV.takeAxisIntsDs`, reindex_axis with method= /
         # raise_error=True by `DSV.reindexAxisDsM`: driver extension ExtC14Ops3)
         if op == "arith":
@@ -731,6 +731,37 @@ class C14(Prop):
         # (`DSV.stackDs` / `DSV.concatenateDs` mirror align=False, `DSV.stackDsA` / `DSV.concatenateDsA` align=True with
         # join= / sort=: the Datasets are aligned with `DSV.alignDs`, i.e. `Dataset.reindex_axis` onto the common axes)
         return False
+
+    @staticmethod
+    def take_multi(c):
+        """the forms of Dataset.take that go to `DSV.takeDsMulti` (the others to the older single-dimension `DSV.takeDs`)"""
+        return bool(c["second"]) or c["spelling"] in ("take_tuple", "take_tol", "nloc") or c.get("names") is not None
+
+    @staticmethod
+    def take_multi_request(c):
+        """the call of `plan_take` as `DSV.takeDsMulti` reads it: the index in the form the call gives it (tuple / dict /
+        (indices, axis=)), indexing mode, tolerance, keepdims as the call passes them, names= or null"""
+        sp, d = c["spelling"], c["dim"]
+        posmode = sp in ("ix", "isel")
+        keep = bool(c["keepdims"])
+        tolv = None
+        if sp == "take_tuple":
+            index = {"form": "tuple", "ix": list(c["tuple"])}
+        elif sp in ("take_tol", "nloc"):
+            index = {"form": "dict", "items": [[["name", d], c["ix"]]]}
+            tolv = list(c["tol"]) if sp == "take_tol" else ["inf"]
+            keep = False
+        elif sp == "take_axisarg":
+            index = {"form": "axis", "ix": c["ix"], "axis": ["name", d]}
+        else:
+            items = [[["name", d], c["ix"]]]
+            if c["second"]:
+                items.append([["name", c["second"][0]], c["second"][1]])
+            index = {"form": "dict", "items": items}
+            keep = keep and sp == "take_dict"
+        return {"fn": "take_multi", "index": index, "names": list(c["names"]) if c.get("names") is not None else None,
+                "cfg": {"captured": "label", "indexing": "position" if posmode else "label", "toggle": False, "tol": tolv,
+                        "keepdims": keep}}
 
     def lean_ds(self, dd, toks):
         """a Dataset description as the driver reads it: keys, variables (cells of variable k are `src (off + k) i`),
@@ -761,7 +792,9 @@ class C14(Prop):
             # (a template Dataset / DimArray / Axes is read through its axes)
             r["fn"] = c["fn"]
             r["template"] = [core.lean_axis(a, None) for a in c["template"]]
-        if op == "take":
+        if op == "take" and self.take_multi(c):
+            r.update(self.take_multi_request(c))
+        elif op == "take":
             posmode = c["spelling"] in ("ix", "isel")
             r["ix"] = c["ix"]
             r["cfg"] = {"captured": "label", "indexing": "position" if posmode else "label", "toggle": False, "tol": None,
